@@ -177,12 +177,27 @@ def rule_reg_lookup(db: ProgramDB) -> List[Instance]:
                           if isinstance(c, ast.Call) and isinstance(c.func, ast.Name)]
         walkers = [h for h in helpers if isinstance(h, FuncInfo) and "__subclasses__" in unparse(h.node)]
         if walkers:
+            transitive = any(any(isinstance(x, ast.While) for x in own_nodes(h.node)) or
+                             any(isinstance(x, ast.Call) and isinstance(x.func, ast.Name) and x.func.id == h.name for x in own_nodes(h.node))
+                             for h in walkers)
+            if not transitive:
+                out.append(inst("REG-LOOKUP", VIOLATION, fn, "get_cache_keys_for_class_[subclass walk is transitive]",
+                                "the stores are found through clazz.__subclasses__(), which lists DIRECT subclasses only, and the walk "
+                                "neither recurses nor iterates a worklist: instances of a grandchild class are missed"))
+                return out
             dedup = any(("seen" in unparse(h.node) or "set(" in unparse(h.node) or "dict.fromkeys" in unparse(h.node))
                         for h in walkers + [fn])
             out.append(inst("REG-LOOKUP", HOLDS if dedup else VIOLATION, fn, "get_cache_keys_for_class_[subclass walk lists each class once]",
                             "the subclass walk de-duplicates the classes it reaches" if dedup else
                             "the stores are found by walking __subclasses__() without remembering visited classes: a class "
                             "reachable along two inheritance paths (a diamond) is listed twice and its instances are yielded twice"))
+            return out
+        exact = [c for c in own_nodes(fn.node) if isinstance(c, ast.Compare) and len(c.ops) == 1 and isinstance(c.ops[0], (ast.Is, ast.Eq))
+                 and cls_param in (unparse(c.left), unparse(c.comparators[0]))]
+        if exact:
+            out.append(inst("REG-LOOKUP", VIOLATION, fn, "get_cache_keys_for_class_[subclass test]",
+                            f"`{unparse(exact[0])}` selects the store of exactly the requested class: instances of subclasses are missed",
+                            line=exact[0].lineno))
             return out
         raise AnalysisError("get_cache_keys_for_class_: no issubclass test found")
     for c in calls:
